@@ -888,10 +888,18 @@ evaluate() const {
       }
 
     case LSHIFT:
-      return Result(r1.as_integer() << r2.as_integer());
-
     case RSHIFT:
-      return Result(r1.as_integer() >> r2.as_integer());
+      {
+        int count = r2.as_integer();
+        if (count < 0 || count >= (int)(sizeof(int) * CHAR_BIT)) {
+          // Shifting by this much is undefined; there is no value.
+          return Result();
+        }
+        if (_u._op._operator == LSHIFT) {
+          return Result((int)((unsigned int)r1.as_integer() << count));
+        }
+        return Result(r1.as_integer() >> count);
+      }
 
     case '?':
       return r1.as_integer() ?
